@@ -81,13 +81,13 @@ func runOnce(w *world.World, ops []mc.Op, prefix []int) runOut {
 }
 
 type histResult struct {
-	Name        string   `json:"name"`
-	Schedules   int      `json:"schedules"`
-	Points      int      `json:"choice_points_in_canonical_run"`
-	Sites       []string `json:"sites"`
-	Outcomes    int      `json:"distinct_outcomes"`
-	Canonical   string   `json:"canonical_digest"`
-	CappedSites []string `json:"ranges_over_more_keys_than_permuted,omitempty"`
+	Name        string         `json:"name"`
+	Schedules   int            `json:"schedules"`
+	Points      int            `json:"choice_points_in_canonical_run"`
+	Sites       []string       `json:"sites"`
+	Outcomes    int            `json:"distinct_outcomes"`
+	Canonical   string         `json:"canonical_digest"`
+	CappedSites []string       `json:"ranges_over_more_keys_than_permuted,omitempty"`
 	Violations  []mc.Violation `json:"violations,omitempty"`
 }
 
